@@ -235,7 +235,14 @@ def enc_edge(e) -> str:
 
 
 def obs(g) -> str:
-    """Every C01 read view through the public API, in the order the API returns it (sets are sorted)."""
+    """Every C01 read view through the public API; a reader that raises is part of the observation."""
+    try:
+        return _obs(g)
+    except Exception as e:  # noqa: BLE001
+        return '!obs-raised-' + err_name(e)
+
+
+def _obs(g) -> str:
     names = g.get_node_names()
     parts = ['N:' + _join(enc_node(g, n) for n in g.get_nodes()),
              'E:' + _join(enc_edge(e) for e in g.get_edges()),
@@ -290,6 +297,13 @@ def ts_obs(g) -> str:
 # ----------------------------------------------------------------------------------------------------------
 
 def snapshot(g):
+    try:
+        return _snapshot(g)
+    except Exception as e:  # noqa: BLE001
+        return {'nodes': '!' + err_name(e), 'edges': [], 'pc': {}, 'meta': '', 'extra': {}}
+
+
+def _snapshot(g):
     """Plain-Python value of the whole observable state, for before/after comparisons."""
     nodes = []
     for n in g.get_nodes():
@@ -313,6 +327,13 @@ def snapshot(g):
 
 
 def views_consistent(g):
+    try:
+        return _views_consistent(g)
+    except Exception as e:  # noqa: BLE001
+        return [f'a read view raised {err_name(e)}: {e}']
+
+
+def _views_consistent(g):
     """C01 oracle on the implementation alone: every read view agrees with `g.edges` / `g.nodes`, the documented
     sort orders hold, no unordered pair carries two edges, no self-loop, every endpoint is a node."""
     bad = []
